@@ -25,6 +25,8 @@ import SF.Proofs.UbjEncTop
 import SF.Proofs.JsonEncTop
 import SF.Proofs.JsonRefineTop
 import SF.Proofs.UbjBridgeTop
+import SF.Proofs.JsonReuseTop
+import SF.Proofs.DecReuseTop
 namespace SF.Props.C17
 open SF SF.Cbor SF.Cbor.Cst
 
@@ -240,3 +242,138 @@ example :
   decide +kernel
 
 end SF.PropsUbjP.C17
+
+
+/-! ## JSON and CBOR parsers for EVERY probe; the three pull decoders
+(proofs SF/Proofs/JsonReuse{Sim,Run,Neat,Dec,Top}.lean, CborFrame.lean, CborDecFrame.lean,
+CborDecReuse.lean, UbjDecFrame.lean, DecReuseTop.lean) -/
+
+namespace SF.PropsJsonAny.C17
+open SF SF.Json SF.Json.Parse SF.Json.ParseP SF.Json.Dec SF.Json.DecP
+open SF.Json.RefineTop (Accepted)
+open SF.Props.JsonReuse (Fr)
+
+/-- C17 for the JSON parser, entry point `Parse`, at full strength: after ANY history of ACCEPTED
+`Parse` calls on one parser, for EVERY probe byte string (grammatical, malformed, truncated, …):
+the reused parser returns the verdict a NEW parser returns (the same error value), delivers
+exactly the events a new parser delivers (after those of the history), and ends in the state a
+new parser ends in, up to the frame (event log, call counter, the scratch fields `isDouble`,
+`required`) -/
+theorem json_parser_reuse_any (hist : List Bytes) (hh : Accepted {} hist) (probe : Bytes) :
+    (parse (parseSeq {} hist) probe).2 = (parse {} probe).2 ∧
+    events (parse (parseSeq {} hist) probe).1 = events (parseSeq {} hist) ++ events (parse {} probe).1 ∧
+    ∃ d r, (parse (parseSeq {} hist) probe).1 =
+      Fr d r (parseSeq {} hist).evs (parseSeq {} hist).nevs (parse {} probe).1 :=
+  SF.Props.JsonReuse.json_parser_reuse_any hist hh probe
+
+/-- … from ANY parser value that is not inside an escape sequence and has a healthy visitor —
+what earlier calls left in the state stack, the token buffer and the scratch fields is irrelevant
+(`Parse` resets them) -/
+theorem json_parse_as_new (q : P) (hesc : q.inEscape = false) (hfa : q.failAt = none) (b : Bytes) :
+    (parse q b).2 = (parse {} b).2 ∧ events (parse q b).1 = events q ++ events (parse {} b).1 ∧
+    ∃ d r, (parse q b).1 = Fr d r q.evs q.nevs (parse {} b).1 :=
+  SF.Props.JsonReuse.json_parse_as_new q hesc hfa b
+
+/-- a call that leaves the parser inside an escape sequence was REJECTED (so after completely
+processed documents the hypothesis of `json_parse_as_new` holds; after a document rejected right
+behind a backslash it does not: the mirror keeps `inEscape`, evaluated in
+SF/Proofs/JsonReuseTop.lean — outside the property, which speaks of completely processed documents) -/
+theorem escape_left_is_rejected (p : P) (b : Bytes) (hp : p.inEscape = false) (h : (parse p b).1.inEscape = true) :
+    (parse p b).2 ≠ none :=
+  SF.Props.JsonReuse.escape_left_is_rejected p b hp h
+
+/-- C17 for the JSON PULL DECODER: after `k` successful calls of `Next` on a decoder over ANY read
+script (k documents completely processed), the following calls give, on ANY rest of the stream
+(valid, invalid, truncated), exactly the trace of a NEW decoder over ANY read script whose
+concatenation is the rest of the stream — and of `NewBytesDecoder` on the rest: results equal,
+events equal after those already delivered -/
+theorem json_reader_decoder_reuse (f f' : Dec → Nat) (hf : Enough f) (hf' : Enough f') (cs : List Bytes) (e : Bool)
+    (n : Int) (k : Nat) (d : Dec) (hk : afterOk f k (newDecoder { chunks := cs, lastEOF := e } n) = some d)
+    (cs' : List Bytes) (e' : Bool) (n' : Int) (hcs : cs'.flatten = stream d) (m : Nat) :
+    nextsF f m d = frameTrace (Parse.events d.p) (nextsF f' m (newDecoder { chunks := cs', lastEOF := e' } n')) ∧
+    nextsF f m d = frameTrace (Parse.events d.p) (nextsF f' m (newBytesDecoder (stream d))) ∧
+    nextsF f (k + m) (newDecoder { chunks := cs, lastEOF := e } n) =
+      nextsF f k (newDecoder { chunks := cs, lastEOF := e } n) ++
+        frameTrace (Parse.events d.p) (nextsF f' m (newDecoder { chunks := cs', lastEOF := e' } n')) :=
+  SF.Props.JsonReuse.json_reader_decoder_reuse f f' hf hf' cs e n k d hk cs' e' n' hcs m
+
+/-- … the byte-slice decoder -/
+theorem json_bytes_decoder_reuse (f f' : Dec → Nat) (hf : Enough f) (hf' : Enough f') (b : Bytes) (k : Nat)
+    (d : Dec) (hk : afterOk f k (newBytesDecoder b) = some d) (m : Nat) :
+    nextsF f m d = frameTrace (Parse.events d.p) (nextsF f' m (newBytesDecoder (stream d))) ∧
+    nextsF f (k + m) (newBytesDecoder b) =
+      nextsF f k (newBytesDecoder b) ++ frameTrace (Parse.events d.p) (nextsF f' m (newBytesDecoder (stream d))) :=
+  SF.Props.JsonReuse.json_bytes_decoder_reuse f f' hf hf' b k d hk m
+
+/-- non-vacuity: history `12` (a number with no white space after it) and `{"a":[1.5,true]}`; the
+probes `[1,]` (malformed) and `{"a":` (truncated): verdicts and events of a new parser -/
+example :
+    let hist : List Bytes := [[0x31, 0x32], [0x7b, 0x22, 0x61, 0x22, 0x3a, 0x5b, 0x31, 0x2e, 0x35, 0x2c, 0x74, 0x72, 0x75, 0x65, 0x5d, 0x7d]]
+    (parse {} hist[0]).2 = none ∧ (parse (parse {} hist[0]).1 hist[1]).2 = none ∧
+    (parse (parseSeq {} hist) [0x5b, 0x31, 0x2c, 0x5d]).2 = (parse {} [0x5b, 0x31, 0x2c, 0x5d]).2 ∧
+    (parse {} [0x5b, 0x31, 0x2c, 0x5d]).2 = some .unknownChar ∧
+    (parse (parseSeq {} hist) [0x7b, 0x22, 0x61, 0x22, 0x3a]).2 = some .incomplete := by
+  decide +kernel
+
+end SF.PropsJsonAny.C17
+
+namespace SF.PropsCborAny.C17
+open SF SF.Cbor SF.Cbor.Cst SF.Cbor.Parse SF.Cbor.Dec SF.Cbor.DecR
+open SF.Cbor.Frame (FrC frameTrace)
+open SF.Props.DecReuseCbor (Accepted parseSeq)
+
+/-- THE FRAME THEOREM for the CBOR parser: `Parse` commutes with the event-log frame — from EVERY
+parser state and for ALL byte strings -/
+theorem cbor_parser_frame (E0 : List Ev) (p : P) (b : Bytes) :
+    parse (FrC E0 p) b = (FrC E0 (parse p b).1, (parse p b).2) :=
+  SF.Props.DecReuseCbor.cbor_parser_frame E0 p b
+
+/-- C17 for the CBOR parser at full strength: after ANY history of ACCEPTED `Parse` calls the
+parser is exactly a new parser up to the event log, and for EVERY probe byte string it returns the
+verdict a NEW parser returns, delivers exactly its events and ends in its state, behind the frame -/
+theorem cbor_parser_reuse_any (hist : List Bytes) (hh : Accepted {} hist) (probe : Bytes) :
+    parseSeq {} hist = idle (parseSeq {} hist).evs ∧
+    (parse (parseSeq {} hist) probe).2 = (parse {} probe).2 ∧
+    Parse.events (parse (parseSeq {} hist) probe).1 =
+      Parse.events (parseSeq {} hist) ++ Parse.events (parse {} probe).1 ∧
+    (parse (parseSeq {} hist) probe).1 = FrC (parseSeq {} hist).evs (parse {} probe).1 :=
+  SF.Props.DecReuseCbor.cbor_parser_reuse_any hist hh probe
+
+/-- C17 for the CBOR PULL DECODER: after `k` successful calls on ANY bytes in ANY read script, the
+following calls behave on ANY rest of the stream as a NEW decoder over any script of the rest, and
+as the byte-slice decoder on the rest -/
+theorem cbor_reader_decoder_reuse (f f' : Dec → Nat) (hf : Enough f) (hf' : Enough f') (cs : List Bytes) (k : Nat)
+    (d : Dec) (hk : afterOk f k { reads := cs } = some d) (cs' : List Bytes) (hcs : cs'.flatten = stream d) (m : Nat) :
+    nextsF f m d = frameTrace (Parse.events d.p) (nextsF f' m { reads := cs' }) ∧
+    nextsF f m d = frameTrace (Parse.events d.p) (nextsF f' m { hasReader := false, buffer := stream d }) ∧
+    nextsF f (k + m) { reads := cs } =
+      nextsF f k { reads := cs } ++ frameTrace (Parse.events d.p) (nextsF f' m { reads := cs' }) :=
+  SF.Props.DecReuseCbor.cbor_reader_decoder_reuse f f' hf hf' cs k d hk cs' hcs m
+
+end SF.PropsCborAny.C17
+
+namespace SF.PropsUbjD.C17
+open SF SF.Ubjson SF.Ubjson.Parse SF.Ubjson.Dec SF.Ubjson.Syn SF.Ubjson.DecR
+
+/-- THE FRAME THEOREM for the UBJSON pull decoder: the decoder whose parser has delivered the
+events `E0` before (and holds any value in the scratch field `valueType`) gives, for EVERY buffered
+bytes and read script, the trace of the decoder with the un-framed parser behind the events `E0` -/
+theorem ubj_decoder_frame (E0 : List Ev) (f : Dec → Nat) (hf : Enough f) (n : Nat) (d : Dec) (v : Nat)
+    (hd : ReadyA d) (hv : VtOk v d.p) :
+    nextsF f n (setP d (Fr v E0 d.p)) = frameTrace E0.reverse (nextsF f n d) :=
+  SF.Props.DecReuse.ubj_decoder_frame E0 f hf n d v hd hv
+
+/-- C17 for the UBJSON PULL DECODER: a new decoder whose stream is the wire form of grammatical
+items `xs` followed by ANY bytes `tail`: the first `xs.length` calls succeed, the decoder after
+them is idle with exactly `tail` still to come, and EVERY further call behaves on `tail` as on the
+same decoder with a NEW parser: same results, same events after those of the history -/
+theorem ubj_decoder_reuse (f : Dec → Nat) (hf : Enough f) (xs : List (Nat × Item)) (hok : okElems xs = true)
+    (hc : ∀ nx ∈ xs, nx.1 + vcost nx.2 + 2 ≤ 2000000) (tail : Bytes)
+    (d0 : Dec) (vt : Nat) (hd : Ready d0 [] vt) (hs : stream d0 = wireElems xs ++ tail) :
+    ∃ d' vt', Ready d' (evElems xs).reverse vt' ∧ stream d' = tail ∧ ReadyA (setP d' {}) ∧
+      stream (setP d' {}) = tail ∧
+      ∀ k, nextsF f k d' = frameTrace (evElems xs) (nextsF f k (setP d' {})) ∧
+        nextsF f (xs.length + k) d0 = okTrace [] xs ++ frameTrace (evElems xs) (nextsF f k (setP d' {})) :=
+  SF.Props.DecReuse.ubj_decoder_reuse f hf xs hok hc tail d0 vt hd hs
+
+end SF.PropsUbjD.C17
